@@ -69,11 +69,11 @@ var probes = map[string][]string{
 		"rfault_pos.in-tag", "rfault_pos.in-comment", "rfault_pos.in-text", "rfault_pos.at-eof", "rfault_with_data",
 		"combined_fired", "adapter_path_cases"},
 	"C15": {"cli_execs.sanitise_ugc", "cli_execs.sanitise_html_email", "two_chunk_splits", "early_eof_execs", "adapter_path_execs",
-		"blank_inputs", "multi_read_execs", "long_inputs", "writer.sw", "writer.plain", "writer.buf", "writer.builder"},
+		"blank_inputs", "retention_checks", "multi_read_execs", "long_inputs", "writer.sw", "writer.plain", "writer.buf", "writer.builder"},
 	"C13": {"context_switches", "points.read", "points.write", "points.cb", "points.map", "ops.Sanitize", "ops.SanitizeBytes",
 		"ops.SanitizeReader", "ops.SanitizeReaderToWriter", "ops_with_fault", "map_order.canonical", "map_order.reversed", "map_order.random",
 		"callbacks", "map_site_visits_ge2keys.*", "map_site_perms.*"},
-	"C17": {"check.interleave", "check.isolation", "check.order", "check.case", "check.recent", "recent_calls_dropped", "instance_switches"},
+	"C17": {"check.interleave", "check.isolation", "check.order", "check.case", "check.recent", "recent_calls_dropped", "instance_switches", "sanitize_between_builder_calls"},
 }
 
 var thoroughOnlyProbes = map[string]bool{"rfault_pos.buffer-boundary": true}
